@@ -121,6 +121,24 @@ class Ctx:
                     return True
         return False
 
+    def ctor_sites(self) -> list[tuple[FuncInfo, ast.Call]]:
+        """Calls outside the graph class that construct the graph."""
+        if getattr(self, "_ctor_sites", None) is None:
+            sites: list[tuple[FuncInfo, ast.Call]] = []
+            for f in self.repo.all_functions():
+                if isinstance(f.node, ast.Lambda) or (f.cls is not None and any(c == self.g for c in self.repo.mro(f.cls))):
+                    continue
+                for c in own_nodes(f.node):
+                    if isinstance(c, ast.Call):
+                        try:
+                            ci = self.T.ctor_class(f, c)
+                        except Exception:  # noqa: BLE001
+                            ci = None
+                        if ci is not None and any(k == self.g for k in self.repo.mro(ci)):
+                            sites.append((f, c))
+            self._ctor_sites = sites
+        return self._ctor_sites
+
     def sink_events(self, f: FuncInfo) -> list[tuple[ast.AST, str, list[ast.expr]]]:
         """(node, description, name-carrying argument expressions) of everything `f` asks of / tells the networkx graph."""
         out: list[tuple[ast.AST, str, list[ast.expr]]] = []
@@ -628,8 +646,6 @@ def rule_r1_r3(cx: Ctx, cons: list[FuncInfo]) -> Flow:
     res.floor("C09.R1", 3, n)
     res.extra["c09_flatten_sites"] = n_flat
     res.extra["c09_limit_carriers"] = sorted(fl.carriers)
-    if n and not n_flat and not res.undecided and not any(not o.ok for o in res.obligations if o.rule == "C09.R1"):
-        res.undecide("C09.R3", f"{cx.g.module.relpath}::{cx.g.name}", "no truncation of node names was found in the construction code although all sinks look flattened", where(cx.init, cx.init.node))
     if not n_flat and not res.undecided:
         # nothing in the construction code depends on the limit at all: the limit is ignored
         lim_used = bool(fl.carriers) or stray_limit
@@ -876,8 +892,9 @@ def tabulate_limit(cx: Ctx, entry: FuncInfo, style: str) -> tuple[list[tuple], s
     return rows, None
 
 
-def rule_r4(cx: Ctx) -> None:
+def rule_r4(cx: Ctx, scan_depends_on_limit: bool = False) -> None:
     res, repo = cx.res, cx.repo
+    cx.scan_depends_on_limit = scan_depends_on_limit
     m = repo.modules.get(ENTRY_MODULE)
     entries: list[tuple[FuncInfo, str]] = []
     if m is not None:
@@ -895,12 +912,14 @@ def rule_r4(cx: Ctx) -> None:
         decided += 1
         _judge_limit_rows(cx, entry, rows)
     if not decided:
+        # the public entry points cannot be evaluated: tabulate the function that constructs the graph
+        builders = [f for f, _c in cx.ctor_sites() if f.outer is None and f.cls is None]
         gg = repo.find_func(GG, "generate_graph")
-        if gg is not None:
-            rows, why = tabulate_limit(cx, gg, "generate")
+        for b in ([gg] if gg is not None and (gg in builders or not builders) else builders[:2]):
+            rows, why = tabulate_limit(cx, b, "generate")
             if why is None:
                 decided += 1
-                _judge_limit_rows(cx, gg, rows)
+                _judge_limit_rows(cx, b, rows)
             else:
                 problems.append(why)
     if not decided:
@@ -918,6 +937,12 @@ def _judge_limit_rows(cx: Ctx, entry: FuncInfo, rows: list[tuple]) -> None:
         got = out[1] if out[0] == "value" else f"raises {out[1]}"
         return f"level_limit={lim}, module_path {depth} level(s) below root_path: the graph receives limit {got!r}"
 
+    limited = [o for l, _d, o in rows if l is not None]
+    if limited and all(o == ("value", None) for o in limited) and getattr(cx, "scan_depends_on_limit", False):
+        # the graph never sees the limit, but the module / import list handed to it is computed from the limit: the truncation may have
+        # moved in front of the graph - a design these rules do not follow
+        res.undecide("C09.R4", f"{base}::limit handed to the graph", "the graph is built without a limit while the scanned modules / imports depend on the limit: flattening seems to happen before the graph is built, which these rules cannot follow", where(entry, entry.node))
+        return
     none_rows = [(l, d, o) for l, d, o in rows if l is None]
     bad = [r for r in none_rows if r[2] != ("value", None)]
     res.add("C09.R4", f"{base}::None stays None", not bad, "no limit stays no limit for every root/module path difference" if not bad else f"a missing limit is not passed through as None: {show(*bad[0])}", where(entry, entry.node), kind="decision-table")
@@ -952,8 +977,8 @@ def run(repo: Repo) -> Result:
     cons = construction_functions(cx)
     flow = rule_r1_r3(cx, cons)
     rule_r2(cx, cons, flow)
-    rule_r4(cx)
     from .c09_r5 import rule_r5
 
-    rule_r5(cx)
+    scan_depends = rule_r5(cx)
+    rule_r4(cx, scan_depends)
     return res
